@@ -53,6 +53,13 @@ func genC03(seed uint64, idx int, tier string) *Scenario {
 	udpMaxReqV = 4
 	history := r.Chance(0.3)
 	ns := r.Range(2, 3)
+	// mixed: a few earlier sessions run to completion first, then the others are interleaved
+	prelude := 0
+	if !history && r.Chance(0.25) {
+		prelude = r.Range(1, 3)
+		ns += prelude
+	}
+	preludeSteps := 0
 	if history {
 		ns = r.Range(2, 6)
 		if r.Chance(0.2) {
@@ -81,12 +88,20 @@ func genC03(seed uint64, idx int, tier string) *Scenario {
 		if p.UDP {
 			a.Kind = "udp"
 		}
+		if (pn == "ftp" || pn == "smtp") && r.Chance(0.4) {
+			cmds = append(cmds, pcmd{Data: []byte("QUIT\r\n"), Note: "QUIT"})
+		}
 		for _, c := range cmds {
-			a.Ops = append(a.Ops, SendOp(c.Data, nil, c.Note))
+			var cuts []int
+			if !p.UDP && len(c.Data) > 1 && r.Chance(0.3) {
+				// the command arrives in two pieces; other sessions' traffic may fall between them
+				cuts = []int{1 + r.Intn(len(c.Data)-1)}
+			}
+			a.Ops = append(a.Ops, SendOp(c.Data, cuts, c.Note))
 		}
 		if !p.UDP {
 			end := "close"
-			if !history && r.Chance(0.15) {
+			if !history && i >= prelude && r.Chance(0.15) {
 				end = "reset"
 				if len(a.Ops) > 1 {
 					a.Ops = a.Ops[:1+r.Intn(len(a.Ops)-1)]
@@ -99,6 +114,12 @@ func genC03(seed uint64, idx int, tier string) *Scenario {
 			}
 			a.Ops = append(a.Ops, Op{K: end})
 		}
+		if i < prelude {
+			preludeSteps += 2
+			for _, o := range a.Ops {
+				preludeSteps += 1 + len(o.Cuts)
+			}
+		}
 		sc.Actors = append(sc.Actors, a)
 	}
 	sc.Params["tags"] = strings.Join(tags, ",")
@@ -110,7 +131,13 @@ func genC03(seed uint64, idx int, tier string) *Scenario {
 	} else {
 		sc.Schedule = r.Schedule(64)
 		sc.Class = fmt.Sprintf("%s/interleaved-%d", pn, ns)
-		if tier == "thorough" && idx%3 == 0 {
+		if prelude > 0 {
+			// tape value 0 picks the first unfinished actor: the prelude sessions run strictly first
+			sc.Schedule = append(make([]int, preludeSteps), sc.Schedule...)
+			sc.Class = fmt.Sprintf("%s/history-%d+interleaved-%d", pn, prelude, ns-prelude)
+			sc.Params["prelude"] = prelude
+		}
+		if tier == "thorough" && idx%3 == 0 && prelude == 0 {
 			// systematic enumeration: the tape is the idx-th interleaving in mixed radix
 			k := idx / 3 / len(names)
 			for i := range sc.Schedule {
